@@ -25,6 +25,19 @@ def mods():
     return puan, pg, pnd, cc
 
 
+def item_class():
+    """a user-defined subclass of puan.variable (the library supports them, see
+    test_constructing_proposition_model_with_variable_sub_classes); module level so that pickle finds it"""
+    g = globals()
+    if "ItemVariable" not in g:
+        puan = mods()[0]
+        cls = type("ItemVariable", (puan.variable,), {"__doc__": "an item of a product catalogue"})
+        cls.__module__ = __name__
+        cls.__qualname__ = "ItemVariable"
+        g["ItemVariable"] = cls
+    return g["ItemVariable"]
+
+
 def _var(node):
     puan = mods()[0]
     vid = node.get("id")
@@ -45,6 +58,8 @@ def node(spec, shared=None):
         b = tuple(spec["b"])
         if spec.get("str") and b == (0, 1):
             return spec["id"]
+        if spec.get("sub"):
+            return item_class()(spec["id"], b)
         return puan.variable(spec["id"], b)
     if k == "ref":
         return shared[spec["i"]]
@@ -116,4 +131,8 @@ def polyhedron(spec):
     variables = [puan.variable.support_vector_variable()] + [puan.variable(v[0], (v[1], v[2])) for v in spec["vars"]]
     index = spec.get("index") or []
     index = [puan.variable(i, (0, 1)) for i in index]
+    if spec.get("dtype"):
+        # the matrix held in a narrower integer type (constructor parameter / .astype, as the library's own tests do)
+        import numpy as np
+        return pnd.ge_polyhedron(spec["m"], variables=variables, index=index, dtype=getattr(np, spec["dtype"]))
     return pnd.ge_polyhedron(spec["m"], variables=variables, index=index)
